@@ -63,6 +63,7 @@ OvmbRead(ln) ==
       ok == ln.res = "Ok"
       failed == ln.failat >= 0 /\ ln.failat < Len(ln.bytes)
       must == Has(ln, "must") /\ ln.must
+      hexconv == ln.mt # "hex" \/ ~ln.tc \/ (Has(ln, "ref") /\ Tr[ln.ref].mt = "hex")
       cls == (IF P.ok THEN "valid" ELSE IF P.strict THEN "strict:" \o P.why ELSE "lax:" \o P.why)
              \o (IF ok THEN "|accepted" ELSE "|rejected")
   IN
@@ -76,24 +77,33 @@ OvmbRead(ln) ==
   ELSE IF Want("C18") /\ ok /\ ~P.ok /\ P.strict THEN R("C18:AcceptedInvalid:" \o P.why, cls)
   ELSE IF (Want("C06") \/ Want("C07")) /\ ok /\ P.ok /\ ~SameMesh(P, ln.mesh) THEN R("C06:ReadMeshDiffersFromFile", cls)
   ELSE IF Want("C06") /\ must /\ ~P.ok THEN R("C06:SPEC-ENCODING-NOT-VALID:" \o P.why, cls)
+  ELSE IF Want("C06") /\ must /\ ~hexconv THEN R("", cls \o "|hex-convention")
   ELSE IF Want("C06") /\ must /\ Compatible(P.topo, ln.mt) /\ (~ln.tc \/ TopoCheckOK(P)) /\ ~ok THEN R("C06:ValidEncodingRejected:" \o ln.res, cls)
   ELSE IF Want("C06") /\ must /\ ~Compatible(P.topo, ln.mt) /\ ok THEN R("C06:IncompatibleTopologyAccepted", cls)
   ELSE IF Want("C06") /\ must /\ ok /\ Has(ln, "ref") /\ ~MeshEq(Tr[ln.ref].mesh, ln.mesh, FALSE) THEN R("C06:ReadMeshDiffersFromSource", cls)
   ELSE R("", cls)
 
-OvmbTrip(ln) ==
-  IF ln.res # "" THEN R("C06:RoundTrip" \o ln.res, "trip-died")
-  ELSE LET m1 == ln.m1 IN
+(* the source mesh of a round trip is readable into mesh type mt with these options *)
+TripReadable(m1, mt1, mt, tc, fmt) ==
+  /\ IF fmt = "ovmb" THEN Compatible(DetectTopo(m1, mt1), mt) ELSE AsciiCompatible(m1, mt)
+  /\ (~tc \/ TopoCheckOK(m1))
+  /\ (mt # "hex" \/ mt1 = "hex" \/ ~tc)     \* the hexahedral kernel re-orders the halffaces of a cell that is not in its convention (C16)
+
+OvmbTrip(ln, pre) ==
+  IF ln.res # "" THEN
+       (IF TripReadable(pre.m1, pre.mt1, ln.mt, ln.tc, "ovmb") THEN R("C06:RoundTrip " \o ln.res, "trip-died") ELSE R("", "trip-died-not-readable"))
+  ELSE LET m1 == ln.m1
+           readable == TripReadable(m1, ln.mt1, ln.mt, ln.tc, "ovmb") IN
   IF ln.w1 # "Ok" THEN R("C06:Trip:w1:" \o ln.w1, "trip")
   ELSE IF ~Has(ln, "r1") THEN R("C06:Trip:incomplete", "trip")
-  ELSE IF ln.r1 # "Ok" THEN
-       (IF Compatible(DetectTopo(m1, ln.mt1), ln.mt) /\ (~ln.tc \/ TopoCheckOK(m1)) THEN R("C06:Trip:r1:" \o ln.r1, "trip") ELSE R("", "trip-not-readable"))
+  ELSE IF ~readable THEN R("", "trip-not-readable")
+  ELSE IF ln.r1 # "Ok" THEN R("C06:Trip:r1:" \o ln.r1, "trip")
   ELSE IF ~MeshEq(m1, ln.m2, FALSE) THEN R("C06:Trip:m2#m1", "trip")
   ELSE IF ln.w2 # "Ok" THEN R("C06:Trip:w2:" \o ln.w2, "trip")
-  ELSE IF ln.b2 # ln.b1 THEN R("C06:Trip:b2#b1", "trip")
+  ELSE IF ~(LET P == ParseFile(ln.b2) IN P.ok /\ SameMesh(P, ln.m2)) THEN R("C06:Trip:b2 does not decode to m2", "trip")
   ELSE IF ~Has(ln, "r2") \/ ln.r2 # "Ok" THEN R("C06:Trip:r2", "trip")
   ELSE IF ~MeshEq(ln.m2, ln.m3, FALSE) THEN R("C06:Trip:m3#m2", "trip")
-  ELSE IF ln.w3 # "Ok" \/ ln.b3 # ln.b2 THEN R("C06:Trip:b3#b2", "trip")
+  ELSE IF ln.w3 # "Ok" THEN R("C06:Trip:w3", "trip")
   ELSE R("", "trip")
 
 (* ------------------------------- ASCII --------------------------------- *)
@@ -122,33 +132,40 @@ AsciiRead(ln) ==
   ELSE IF Want("C07") /\ ln.res \in AllocResults /\ ~AsciiDeclaresLargeSize(ln.bytes) THEN R("C07:AllocationFailureWithoutLargeField", cls)
   ELSE IF Want("C07") /\ ok /\ ~WellFormedMesh(ln.mesh) THEN R("C07:NotWellFormed", cls)
   ELSE IF Want("C06") /\ Has(ln, "must") /\ ln.must /\ ~ok THEN R("C06:ValidAsciiRejected", cls)
-  ELSE IF Want("C06") /\ ok /\ Has(ln, "ref") /\ ~MeshEq(Tr[ln.ref].mesh, ln.mesh, TRUE) THEN R("C06:ReadMeshDiffersFromSource", cls)
+  ELSE IF Want("C06") /\ ok /\ Has(ln, "ref") /\ ~AsciiMeshEq(Tr[ln.ref].mesh, ln.mesh, Has(ln, "exact") /\ ln.exact) THEN R("C06:ReadMeshDiffersFromSource", cls)
   ELSE R("", cls)
 
-AsciiTrip(ln) ==
-  IF ln.res # "" THEN R("C06:RoundTrip" \o ln.res, "atrip-died")
-  ELSE LET m1 == ln.m1 IN
+AsciiTrip(ln, pre) ==
+  IF ln.res # "" THEN
+       (IF TripReadable(pre.m1, pre.mt1, ln.mt, ln.tc, "ascii") THEN R("C06:RoundTrip " \o ln.res, "atrip-died") ELSE R("", "atrip-died-not-readable"))
+  ELSE LET m1 == ln.m1
+           exact == Has(ln, "exact") /\ ln.exact
+           readable == TripReadable(m1, ln.mt1, ln.mt, ln.tc, "ascii") IN
   IF ln.w1 # "Ok" THEN R("C06:Trip:w1:" \o ln.w1, "atrip")
   ELSE IF ~Has(ln, "r1") THEN R("C06:Trip:incomplete", "atrip")
-  ELSE IF ln.r1 # "Ok" THEN
-       (IF (ln.mt = "poly" \/ ln.mt = ln.mt1) /\ (~ln.tc \/ TopoCheckOK(m1)) THEN R("C06:Trip:r1:" \o ln.r1, "atrip") ELSE R("", "atrip-not-readable"))
-  ELSE IF ~AsciiMeshEq(m1, ln.m2) THEN R("C06:Trip:m2#m1:" \o AsciiMeshDiff(m1, ln.m2), "atrip")
+  ELSE IF ~readable THEN R("", "atrip-not-readable")
+  ELSE IF ln.r1 # "Ok" THEN R("C06:Trip:r1:" \o ln.r1, "atrip")
+  ELSE IF ~AsciiMeshEq(m1, ln.m2, exact) THEN R("C06:Trip:m2#m1:" \o AsciiMeshDiff(m1, ln.m2, exact), "atrip")
   ELSE IF ln.w2 # "Ok" THEN R("C06:Trip:w2:" \o ln.w2, "atrip")
   ELSE IF ~Has(ln, "r2") \/ ln.r2 # "Ok" THEN R("C06:Trip:r2", "atrip")
-  ELSE IF ~MeshEq(ln.m2, ln.m3, TRUE) THEN R("C06:Trip:m3#m2 (second round trip changes the mesh)", "atrip")
-  ELSE IF ln.w3 # "Ok" \/ AsciiTokens(ln.b3) # AsciiTokens(ln.b2) THEN R("C06:Trip:b3#b2 (second round trip changes the file)", "atrip")
+  ELSE IF ~AsciiMeshEq(ln.m2, ln.m3, TRUE) THEN R("C06:Trip:m3#m2 (second round trip changes the mesh):" \o AsciiMeshDiff(ln.m2, ln.m3, TRUE), "atrip")
+  ELSE IF ln.w3 # "Ok" \/ ~AsciiSameFile(ln.b2, ln.b3) THEN R("C06:Trip:b3#b2 (second round trip changes the file)", "atrip")
   ELSE R("", "atrip")
 
 (* ------------------------------ dispatch -------------------------------- *)
-LineCheck(ln) ==
-  LET died == Has(ln, "died") IN
+LineCheck(i) ==
+  LET ln == Tr[i]
+      died == Has(ln, "died")
+      pre == IF i > 1 /\ Tr[i - 1].e = "tripm" /\ Tr[i - 1].j = ln.j THEN Tr[i - 1] ELSE [m1 |-> <<>>, mt1 |-> ""]
+  IN
   IF ln.e = "write" THEN
        (IF died THEN R("C06:writer " \o ln.res, "write-died")
         ELSE IF ln.fmt = "ovmb" THEN OvmbWrite(ln) ELSE AsciiWrite(ln))
   ELSE IF ln.e = "read" THEN (IF ln.fmt = "ovmb" THEN OvmbRead(ln) ELSE AsciiRead(ln))
   ELSE IF ln.e = "trip" THEN
-       (IF died THEN R("C06:RoundTrip " \o ln.res, "trip-died")
-        ELSE IF ln.fmt = "ovmb" THEN OvmbTrip([ln EXCEPT !.failmode = 0] @@ [res |-> ""]) ELSE AsciiTrip(ln @@ [res |-> ""]))
+       (IF died /\ pre.mt1 = "" THEN R("C06:RoundTrip " \o ln.res \o " (while building the mesh)", "trip-died")
+        ELSE IF ln.fmt = "ovmb" THEN OvmbTrip(IF died THEN ln ELSE ln @@ [res |-> ""], pre)
+        ELSE AsciiTrip(IF died THEN ln ELSE ln @@ [res |-> ""], pre))
   ELSE R("", "")
 
 TInit == l = 1 /\ nbad = 0 /\ nchk = 0
@@ -158,7 +175,7 @@ TNext ==
   /\ l' = l + 1
   /\ LET ln == Tr[l] IN
      IF ln.e \in {"write", "read", "trip"}
-     THEN LET r == LineCheck(ln) IN
+     THEN LET r == LineCheck(l) IN
           /\ PrintT(<<"VXC", l, ln.j, r.cls>>)
           /\ nbad' = nbad + (IF r.msg = "" THEN 0 ELSE IF PrintT(<<"VXBAD", l, ln.j, r.msg>>) THEN 1 ELSE 1)
           /\ nchk' = nchk + 1
